@@ -1744,6 +1744,11 @@ class Interp:
     def _inline(self, fi, args, kwargs, st, act, node, dstar=(), how="typed", closure_env=None):
         if fi.fq in self.no_inline or act.depth >= self.max_depth \
                 or any(a.fi is fi for a in self.stack):
+            # one spelling per call: f(a, y=b) is f(a, b) when y is the next positional parameter
+            ps_ = [x.arg for x in fi.node.args.posonlyargs + fi.node.args.args]
+            args, kwargs = list(args), dict(kwargs)
+            while len(args) < len(ps_) and ps_[len(args)] in kwargs:
+                args.append(kwargs.pop(ps_[len(args)]))
             t = ("call", fi.fq, tuple(args), tuple(sorted(kwargs.items())), None)
             self._emit("call", st, node, act, fname=fi.fq, args=tuple(args),
                        kwargs=tuple(sorted(kwargs.items())), result=t, external=False,
